@@ -740,7 +740,9 @@ func prepareBoltSnapshot(snapshot *IndexSnapshot, tx *util.BoltTxImpl, path stri
 				return nil, nil, fmt.Errorf("segment: %s persist err: %v", path, err)
 			}
 			newSegmentPaths[segmentSnapshot.id] = path
-			verifPoint(snapshot.parent, "segfile_written", segmentSnapshot.id)
+			if d == nil { // not for CopyTo, which writes into the destination directory
+				verifPoint(snapshot.parent, "segfile_written", segmentSnapshot.id)
+			}
 			err = snapshotSegmentBucket.Put(util.BoltPathKey, []byte(filename), nil)
 			if err != nil {
 				return nil, nil, err
